@@ -1,1 +1,590 @@
+//! Reference naming model for `#[metrics]`, written from the macro's documentation
+//! (doc comment of `metrique::unit_of_work::metrics`, metrique/README.md "Renaming metric fields").
+//! It has its own case conversion: nothing here calls Inflector or metrique-macro.
+//!
+//! Rules (D = doc comment of `metrics` in metrique-macro/src/lib.rs, R = metrique/README.md):
+//!  N1  style in force for a container = its own `rename_all` if it names a style, else the
+//!      style in force at the place it is flattened into, else identity.
+//!      R: "`rename_all` is transitive—it will apply to all child structures that are
+//!      `#[metrics(flatten)]`'d into the entry. ... If a struct explicitly sets a name scheme
+//!      with `rename_all`, it will not be overridden by a parent."
+//!      `rename_all = "preserve"` is modelled as "no style of its own" (DESIGN no-alarm choice).
+//!  N2  plain field: chain + container-prefix + inflect(identifier).
+//!      D: "`prefix` | Adds a prefix to all field names (prefix gets inflected)",
+//!         "`exact_prefix` | Adds a prefix to all field names without inflection".
+//!  N3  container prefix applies only to un-named, un-flattened fields.
+//!      D: "Prefixes on the struct itself, which *only* affect fields within the metric that
+//!      don't have a `name` or a `flatten` attribute".
+//!  N4  `name = ".."` is never inflected, never gets the container prefix, but gets the chain.
+//!      D: "Metric names assigned via the `name` attribute are not inflected", "Note that
+//!      prefix-attribute-on-flatten *does* apply to nested fields that have a `name` attribute."
+//!  N5  flatten prefixes accumulate outside-in; `prefix` is inflected in the style in force at
+//!      the flatten site, `exact_prefix` is not. D: "`prefix` | Adds a prefix to flattened
+//!      entries. Prefix will get inflected to the right case style"; R: "his-ApiLatency ...
+//!      (explicit rename_all overrides the parent)", "his-exact_name".
+//!  N6  an inflected prefix in snake_case / kebab-case ends with exactly one `_` / `-`, in
+//!      PascalCase it has no delimiter, with no style in force it is used verbatim.
+//!      R: "in `rename_all = "Preserve"`, `Downstreamsuccess` ... PascalCase `DownstreamSuccess`
+//!      ... kebab-case `downstream-success` ... snake_case `downstream_success`".
+//!  N7  tag(name = "..") behaves like a plain field named by that string; tag(name_exact = "..")
+//!      like a `name = ".."` field. D (table): "`name` | Name of the tag field (inflectable,
+//!      respects `prefix` and `rename_all`)", "`name_exact` | ... (exact, not affected by
+//!      `prefix` or `rename_all`)". The tag item comes first.
+//!  N8  tag value / value(string) variant = variant `name` if present, else the variant
+//!      identifier in the enum's OWN `rename_all`; never prefixed. D: "Tag value respects
+//!      `rename_all` and variant `name`, but not `prefix`", "Variant names respect
+//!      `#[metrics(name = "...")]` and `rename_all`".
+//!  N9  `ignore`d fields and `Option::None` contribute nothing; one item per other field, in
+//!      declaration order, flattened children in place.
+//!  N10 sample-group pairs: one (emitted name, string value) per `sample_group` field / tag,
+//!      same order, same names as the emitted items (property statement; doc of
+//!      `Entry::sample_group`).
+//!  V   values: integers -> Unsigned, bool -> 0/1, f64 -> Floating, Duration -> milliseconds
+//!      (unit Milliseconds) unless `unit = Second`; `unit = U` sets the unit; `format = ToString`
+//!      and string types -> string; value newtypes behave as their inner field.
+//!
+//! Not determined by the documentation (accepted alternatives are COUNTED, never alarmed):
+//!  U1 digit-word-boundary: whether a digit run after a letter is a word of its own
+//!     (`request_count2` -> `request_count_2` vs `request_count2`).
+//!  U2 tag-value-inherited-style: whether the tag value / string value follows an INHERITED style.
 
+use crate::vals::{STRS, nn};
+use serde_json::Value as J;
+use std::collections::HashMap;
+
+#[derive(Clone, Copy, PartialEq, Eq, Debug)]
+pub enum Eff {
+    Identity,
+    Pascal,
+    Snake,
+    Kebab,
+}
+
+impl Eff {
+    pub fn name(self) -> &'static str {
+        match self {
+            Eff::Identity => "identity",
+            Eff::Pascal => "pascal",
+            Eff::Snake => "snake",
+            Eff::Kebab => "kebab",
+        }
+    }
+    pub const ALL: [Eff; 4] = [Eff::Identity, Eff::Pascal, Eff::Snake, Eff::Kebab];
+}
+
+pub fn own_style(s: &str) -> Option<Eff> {
+    match s {
+        "pascal" => Some(Eff::Pascal),
+        "snake" => Some(Eff::Snake),
+        "kebab" => Some(Eff::Kebab),
+        _ => None, // "none", "preserve"
+    }
+}
+
+/// Splits into words at `_`, `-`, any other non-alphanumeric, and lower/digit -> Upper.
+/// With `split_digits` a digit run following a letter is its own word.
+pub fn words(s: &str, split_digits: bool) -> Vec<String> {
+    let mut out: Vec<String> = Vec::new();
+    let mut cur = String::new();
+    let mut prev: Option<char> = None;
+    for c in s.chars() {
+        if !c.is_alphanumeric() {
+            if !cur.is_empty() {
+                out.push(std::mem::take(&mut cur));
+            }
+            prev = None;
+            continue;
+        }
+        if let Some(p) = prev {
+            let camel = (p.is_lowercase() || p.is_ascii_digit()) && c.is_uppercase();
+            let digit = split_digits && p.is_alphabetic() && c.is_ascii_digit();
+            if (camel || digit) && !cur.is_empty() {
+                out.push(std::mem::take(&mut cur));
+            }
+        }
+        cur.push(c);
+        prev = Some(c);
+    }
+    if !cur.is_empty() {
+        out.push(cur);
+    }
+    out
+}
+
+fn cap(w: &str) -> String {
+    let mut cs = w.chars();
+    match cs.next() {
+        Some(f) => f.to_uppercase().collect::<String>() + &cs.as_str().to_lowercase(),
+        None => String::new(),
+    }
+}
+
+pub fn inflect(s: &str, eff: Eff, split_digits: bool) -> String {
+    match eff {
+        Eff::Identity => s.to_string(),
+        Eff::Pascal => words(s, split_digits).iter().map(|w| cap(w)).collect(),
+        Eff::Snake => words(s, split_digits)
+            .iter()
+            .map(|w| w.to_lowercase())
+            .collect::<Vec<_>>()
+            .join("_"),
+        Eff::Kebab => words(s, split_digits)
+            .iter()
+            .map(|w| w.to_lowercase())
+            .collect::<Vec<_>>()
+            .join("-"),
+    }
+}
+
+pub fn inflect_prefix(s: &str, eff: Eff, split_digits: bool) -> String {
+    let mut r = inflect(s, eff, split_digits);
+    match eff {
+        Eff::Snake => r.push('_'),
+        Eff::Kebab => r.push('-'),
+        _ => {}
+    }
+    r
+}
+
+#[derive(Clone, Debug, PartialEq)]
+pub enum EVal {
+    Absent,
+    Ignored,
+    Str(String),
+    U(u64),
+    F(f64),
+}
+
+#[derive(Clone, Debug)]
+pub struct Exp {
+    pub name: String,
+    /// acceptable alternatives (documentation does not decide) with the reason
+    pub alts: Vec<(String, &'static str)>,
+    /// recognisable WRONG answers, for the diff class in the violation key
+    pub diag: Vec<(String, &'static str)>,
+    pub val: EVal,
+    pub unit: String,
+    /// acceptable alternative string values (tag / string-enum values)
+    pub val_alts: Vec<(String, &'static str)>,
+    /// class of the value for string-enum / tag values (violation key tail)
+    pub val_class: String,
+    pub family: &'static str,
+    /// violation key tail (without the diff class)
+    pub class: String,
+    pub leaf: String,
+    pub bare: String,
+    pub path: String,
+    /// Some(value) if the item is part of the sample group
+    pub sg: Option<String>,
+    /// the container says `rename_all = "preserve"` but a style is inherited (assumption A1)
+    pub preserve_inherits: bool,
+}
+
+#[derive(Default)]
+pub struct Expectation {
+    pub items: Vec<Exp>,
+    pub struct_paths: u64,
+    pub enum_paths: u64,
+    pub types_seen: Vec<String>,
+    pub strenum_variants_seen: Vec<(String, usize)>,
+}
+
+#[derive(Clone)]
+struct Ctx {
+    chain_a: String,
+    chain_b: String,
+    inherited: Eff,
+    edge: &'static str,
+    path: String,
+}
+
+pub struct Model {
+    pub types: HashMap<String, J>,
+}
+
+fn s<'a>(j: &'a J, k: &str) -> &'a str {
+    j.get(k).and_then(|v| v.as_str()).unwrap_or("")
+}
+
+fn style_comp(own: &str, eff: Eff) -> String {
+    match own_style(own) {
+        Some(_) => own.to_string(),
+        None => format!("{}~{}", own, eff.name()),
+    }
+}
+
+fn uniq(primary: &str, cands: Vec<(String, &'static str)>) -> Vec<(String, &'static str)> {
+    let mut out: Vec<(String, &'static str)> = Vec::new();
+    for (c, why) in cands {
+        if c != primary && !out.iter().any(|(o, _)| *o == c) {
+            out.push((c, why));
+        }
+    }
+    out
+}
+
+pub fn unit_name(attr: &str) -> &'static str {
+    match attr {
+        "Byte" => "Bytes",
+        "Second" => "Seconds",
+        "Millisecond" => "Milliseconds",
+        "Percent" => "Percent",
+        "Count" => "Count",
+        _ => "?",
+    }
+}
+
+impl Model {
+    pub fn new(descs: &[&str]) -> Model {
+        let mut types = HashMap::new();
+        for d in descs {
+            let j: J = serde_json::from_str(d).expect("type description json");
+            for t in j["types"].as_array().expect("types") {
+                types.insert(s(t, "name").to_string(), t.clone());
+            }
+        }
+        Model { types }
+    }
+
+    pub fn expect(&self, root: &str, seed: u64) -> Expectation {
+        let mut e = Expectation::default();
+        let ctx = Ctx {
+            chain_a: String::new(),
+            chain_b: String::new(),
+            inherited: Eff::Identity,
+            edge: "root",
+            path: String::new(),
+        };
+        self.walk(root, seed, &ctx, &mut e);
+        e
+    }
+
+    fn cprefix(&self, ty: &J, eff: Eff, split: bool) -> (String, &'static str) {
+        match ty.get("cprefix") {
+            Some(J::Object(o)) => {
+                let raw = o["s"].as_str().unwrap();
+                if o["kind"] == "prefix" {
+                    (inflect_prefix_container(raw, eff, split), "prefix")
+                } else {
+                    (raw.to_string(), "exact")
+                }
+            }
+            _ => (String::new(), "none"),
+        }
+    }
+
+    /// (kind, string value) of a value description evaluated at (seed, j)
+    fn eval(&self, v: &J, seed: u64, j: u64, e: &mut Expectation) -> (EVal, String, Vec<(String, &'static str)>, String) {
+        let t = s(v, "t");
+        let n = nn(seed, j);
+        let unit_attr = v.get("unit").and_then(|u| u.as_str());
+        let fmt = v.get("fmt").and_then(|u| u.as_str());
+        if let Some(name) = t.strip_prefix("strenum:") {
+            let ty = &self.types[name];
+            let vars = ty["variants"].as_array().unwrap();
+            let idx = (n as usize) % vars.len();
+            e.strenum_variants_seen.push((name.to_string(), idx));
+            e.types_seen.push(name.to_string());
+            let (val, alts) = variant_string(&vars[idx], s(ty, "style"), Eff::Identity);
+            let vc = format!(
+                "{}/{}",
+                s(ty, "style"),
+                if vars[idx].get("name").and_then(|n| n.as_str()).is_some() { "named" } else { "ident" }
+            );
+            return (EVal::Str(val), "None".into(), alts, vc);
+        }
+        if let Some(name) = t.strip_prefix("newtype:") {
+            let ty = &self.types[name];
+            e.types_seen.push(name.to_string());
+            return self.eval(&ty["val"], seed, j, e);
+        }
+        let mut unit = "None".to_string();
+        let mut val = match t {
+            "u32" | "u64" | "opt_some_u32" => EVal::U(n),
+            "bool" => EVal::U((n % 2 == 1) as u64),
+            "opt_some_bool" => EVal::U((n % 2 == 0) as u64),
+            "f64" => EVal::F(n as f64 + 0.5),
+            "dur" => {
+                unit = "Milliseconds".into();
+                EVal::F(n as f64)
+            }
+            "str" => EVal::Str(STRS[(n % 4) as usize].to_string()),
+            "opt_none_u32" | "opt_none_str" => EVal::Absent,
+            other => panic!("unknown value type {other}"),
+        };
+        if let Some(u) = unit_attr {
+            if t == "dur" && u == "Second" {
+                val = EVal::F(n as f64 / 1000.0);
+            }
+            unit = unit_name(u).to_string();
+        }
+        if fmt == Some("ToString") {
+            val = match val {
+                EVal::U(u) => EVal::Str(u.to_string()),
+                other => other,
+            };
+            unit = "None".into();
+        }
+        (val, unit, vec![], String::new())
+    }
+
+    fn fields(&self, ty: &J, fields: &[J], seed: u64, ctx: &Ctx, eff: Eff, e: &mut Expectation) -> bool {
+        let own = s(ty, "style");
+        let (cp_a, cpk) = self.cprefix(ty, eff, false);
+        let (cp_b, _) = self.cprefix(ty, eff, true);
+        let cp_raw = match ty.get("cprefix") {
+            Some(J::Object(o)) => o["s"].as_str().unwrap().to_string(),
+            _ => String::new(),
+        };
+        let tyname = s(ty, "name");
+        let mut had_child = false;
+        for (k, f) in fields.iter().enumerate() {
+            let fk = s(f, "fk");
+            let ident = s(f, "ident");
+            let path = format!("{}{}.{}", ctx.path, tyname, ident);
+            if fk == "flatten" {
+                had_child = true;
+                let (ea, eb, ek, edesc): (String, String, &'static str, String) = match f.get("edge") {
+                    Some(J::Object(o)) => {
+                        let raw = o["s"].as_str().unwrap();
+                        if o["kind"] == "prefix" {
+                            (
+                                inflect_prefix(raw, eff, false),
+                                inflect_prefix(raw, eff, true),
+                                "prefix",
+                                format!("[prefix={raw}]"),
+                            )
+                        } else {
+                            (raw.to_string(), raw.to_string(), "exact", format!("[exact_prefix={raw}]"))
+                        }
+                    }
+                    _ => (String::new(), String::new(), "none", String::new()),
+                };
+                let child = Ctx {
+                    chain_a: format!("{}{}", ctx.chain_a, ea),
+                    chain_b: format!("{}{}", ctx.chain_b, eb),
+                    inherited: eff,
+                    edge: ek,
+                    path: format!("{path}{edesc}>"),
+                };
+                self.walk(s(f, "child"), crate::vals::cs(seed, k as u64), &child, e);
+                continue;
+            }
+            let v = &f["val"];
+            let j = v["j"].as_u64().unwrap();
+            let (mut val, unit, val_alts, val_class) = self.eval(v, seed, j, e);
+            let leaf = s(f, "leaf").to_string();
+            let is_sg = f["sg"].as_bool().unwrap_or(false);
+            let sg = if is_sg {
+                match &val {
+                    EVal::Str(x) => Some(x.clone()),
+                    _ => None,
+                }
+            } else {
+                None
+            };
+            let (name, alts, diag);
+            let named = fk == "named";
+            if named {
+                let nm = s(f, "name");
+                name = format!("{}{}", ctx.chain_a, nm);
+                alts = uniq(&name, vec![(format!("{}{}", ctx.chain_b, nm), "digit-word-boundary")]);
+                diag = uniq(
+                    &name,
+                    vec![
+                        (format!("{}{}{}", ctx.chain_a, cp_a, nm), "container-prefix-added"),
+                        (format!("{}{}", ctx.chain_a, inflect(nm, eff, true)), "inflected-name"),
+                        (format!("{}{}", ctx.chain_a, inflect(nm, eff, false)), "inflected-name"),
+                        (nm.to_string(), "chain-missing"),
+                        (inflect(nm, eff, true), "chain-missing+inflected-name"),
+                        (inflect(nm, eff, false), "chain-missing+inflected-name"),
+                    ],
+                );
+            } else {
+                name = format!("{}{}{}", ctx.chain_a, cp_a, inflect(ident, eff, false));
+                let mut c = Vec::new();
+                for ch in [&ctx.chain_a, &ctx.chain_b] {
+                    for cp in [&cp_a, &cp_b] {
+                        for sd in [false, true] {
+                            c.push((format!("{}{}{}", ch, cp, inflect(ident, eff, sd)), "digit-word-boundary"));
+                        }
+                    }
+                }
+                alts = uniq(&name, c);
+                let mut d = Vec::new();
+                for sd in [true, false] {
+                    let id = inflect(ident, eff, sd);
+                    if cpk != "none" {
+                        d.push((format!("{}{}", ctx.chain_a, id), "container-prefix-missing"));
+                    }
+                    d.push((format!("{}{}", cp_a, id), "chain-missing"));
+                    d.push((id.clone(), "chain-and-container-prefix-missing"));
+                    d.push((format!("{}{}{}", ctx.chain_a, cp_raw, ident), "not-inflected"));
+                    d.push((format!("{}{}{}", ctx.chain_a, cp_a, ident), "identifier-not-inflected"));
+                    for other in Eff::ALL {
+                        if other != eff {
+                            let (ocp, _) = self.cprefix(ty, other, sd);
+                            d.push((
+                                format!("{}{}{}", ctx.chain_a, ocp, inflect(ident, other, sd)),
+                                "wrong-style",
+                            ));
+                        }
+                    }
+                }
+                let mut d = uniq(&name, d);
+                d.retain(|(x, _)| !alts.iter().any(|(a, _)| a == x));
+                diag = d;
+            }
+            if fk == "ignore" {
+                val = EVal::Ignored;
+            }
+            e.items.push(Exp {
+                name,
+                alts,
+                diag,
+                val,
+                unit,
+                val_alts,
+                val_class,
+                family: "name",
+                class: format!("{}/{}/{}/{}", style_comp(own, eff), cpk, ctx.edge, leaf),
+                leaf,
+                bare: ident.to_string(),
+                path,
+                sg,
+                preserve_inherits: own == "preserve" && eff != Eff::Identity,
+            });
+        }
+        had_child
+    }
+
+    fn walk(&self, tyname: &str, seed: u64, ctx: &Ctx, e: &mut Expectation) {
+        let ty = self
+            .types
+            .get(tyname)
+            .unwrap_or_else(|| panic!("no description for type {tyname}"));
+        e.types_seen.push(tyname.to_string());
+        let own = s(ty, "style");
+        let eff = own_style(own).unwrap_or(ctx.inherited);
+        match s(ty, "shape") {
+            "struct" => {
+                let fields = ty["fields"].as_array().unwrap();
+                let had_child = self.fields(ty, fields, seed, ctx, eff, e);
+                if !had_child {
+                    e.struct_paths += 1;
+                }
+            }
+            "enum" => {
+                let vars = ty["variants"].as_array().unwrap();
+                let var = &vars[(seed as usize) % vars.len()];
+                let vident = s(var, "ident");
+                if let Some(J::Object(tag)) = ty.get("tag") {
+                    let raw = tag["s"].as_str().unwrap();
+                    let exact = tag["kind"] == "exact";
+                    let (cp_a, cpk) = self.cprefix(ty, eff, false);
+                    let (name, alts, diag);
+                    if exact {
+                        name = format!("{}{}", ctx.chain_a, raw);
+                        alts = vec![];
+                        diag = uniq(
+                            &name,
+                            vec![
+                                (format!("{}{}", ctx.chain_a, inflect(raw, eff, true)), "inflected-name"),
+                                (format!("{}{}", ctx.chain_a, inflect(raw, eff, false)), "inflected-name"),
+                                (format!("{}{}{}", ctx.chain_a, cp_a, raw), "container-prefix-added"),
+                                (raw.to_string(), "chain-missing"),
+                                (inflect(raw, eff, true), "chain-missing+inflected-name"),
+                            ],
+                        );
+                    } else {
+                        name = format!("{}{}{}", ctx.chain_a, cp_a, inflect(raw, eff, false));
+                        alts = vec![];
+                        let id = inflect(raw, eff, false);
+                        let mut d = vec![
+                            (format!("{}{}", ctx.chain_a, id), "container-prefix-missing"),
+                            (format!("{}{}", cp_a, id), "chain-missing"),
+                            (id.clone(), "chain-and-container-prefix-missing"),
+                            (format!("{}{}", ctx.chain_a, raw), "not-inflected-no-prefix"),
+                        ];
+                        if cpk == "exact" {
+                            // exact_prefix + tag name inflected as ONE string
+                            d.push((
+                                format!("{}{}", ctx.chain_a, inflect(&format!("{cp_a}{id}"), eff, false)),
+                                "exact-prefix-inflected",
+                            ));
+                            d.push((inflect(&format!("{cp_a}{id}"), eff, false), "chain-missing+exact-prefix-inflected"));
+                        }
+                        for other in Eff::ALL {
+                            if other != eff {
+                                let (ocp, _) = self.cprefix(ty, other, false);
+                                d.push((format!("{}{}{}", ctx.chain_a, ocp, inflect(raw, other, false)), "wrong-style"));
+                            }
+                        }
+                        diag = uniq(&name, d);
+                    }
+                    let (val, val_alts) = variant_string(var, own, ctx.inherited);
+                    let is_sg = tag["sg"].as_bool().unwrap_or(false);
+                    e.items.push(Exp {
+                        name,
+                        alts,
+                        diag,
+                        val: EVal::Str(val.clone()),
+                        unit: "None".into(),
+                        val_alts,
+                        val_class: format!(
+                            "{}/{}/{}",
+                            style_comp(own, ctx.inherited),
+                            s(var, "vk"),
+                            if var.get("name").and_then(|n| n.as_str()).is_some() { "named" } else { "ident" }
+                        ),
+                        family: "enum-tag",
+                        class: format!("{}/{}", if exact { "name_exact" } else { "name" }, eff.name()),
+                        leaf: format!(
+                            "tag-{}/{}/{}/{}/{}",
+                            if exact { "name_exact" } else { "name" },
+                            style_comp(own, eff),
+                            cpk,
+                            ctx.edge,
+                            s(var, "vk")
+                        ),
+                        bare: raw.to_string(),
+                        path: format!("{}{}::{}#tag", ctx.path, tyname, vident),
+                        sg: if is_sg { Some(val) } else { None },
+                        preserve_inherits: own == "preserve" && eff != Eff::Identity,
+                    });
+                }
+                let fields = var["fields"].as_array().unwrap();
+                let mut tyv = ty.clone();
+                tyv["name"] = J::String(format!("{tyname}::{vident}"));
+                let had_child = self.fields(&tyv, fields, seed, ctx, eff, e);
+                if !had_child {
+                    e.enum_paths += 1;
+                }
+            }
+            other => panic!("cannot walk shape {other}"),
+        }
+    }
+}
+
+/// container-level inflectable prefix: same inflection as a flatten prefix (N2, N6)
+pub fn inflect_prefix_container(raw: &str, eff: Eff, split: bool) -> String {
+    inflect_prefix(raw, eff, split)
+}
+
+/// N8: variant `name`, else the identifier in the enum's own style. Alternatives: digit
+/// boundary (U1) and the inherited style (U2).
+fn variant_string(var: &J, own: &str, inherited: Eff) -> (String, Vec<(String, &'static str)>) {
+    if let Some(n) = var.get("name").and_then(|n| n.as_str()) {
+        return (n.to_string(), vec![]);
+    }
+    let ident = s(var, "ident");
+    let eff_own = own_style(own).unwrap_or(Eff::Identity);
+    let primary = inflect(ident, eff_own, false);
+    let mut c = vec![(inflect(ident, eff_own, true), "digit-word-boundary")];
+    if own_style(own).is_none() && inherited != Eff::Identity {
+        c.push((inflect(ident, inherited, false), "tag-value-inherited-style"));
+        c.push((inflect(ident, inherited, true), "tag-value-inherited-style"));
+    }
+    let alts = uniq(&primary, c);
+    (primary, alts)
+}
